@@ -12,24 +12,40 @@ open Text Slice
 
 namespace Bump
 
-/-- the first step: the version text inside the token (byte offsets and byte column) -/
-def locateBytes (content : Text) (p : PkgInfo) : Option PkgInfo :=
-  if p.commitHash.isSome then some p          -- hash-pinned actions are rewritten as a whole
-  else
-    match slice content p.startOffset p.endOffset with
-    | none => none                              -- `content.get(a..b)`: out of range or inside a character
-    | some token =>
-      match rfind? p.version token with
-      | none => none
-      | some k => some { p with startOffset := p.startOffset + k, column := p.column + k }
+/-- the text a package's range should hold: the hash of a hash-pinned action, else the version -/
+def rangeText (p : PkgInfo) : Text := match p.commitHash with | some h => h | none => p.version
 
-/-- the second step: the column in the client's units (UTF-16), when the offsets fit the document -/
+/-- `version_text_range`: the range narrowed to that text inside the token (byte offsets and byte column) -/
+def locateBytes (content : Text) (p : PkgInfo) : Option PkgInfo :=
+  match slice content p.startOffset p.endOffset with
+  | none => none                              -- `content.get(a..b)`: out of range or inside a character
+  | some token =>
+    match rfind? (rangeText p) token with
+    | none => none
+    | some k =>
+      some { p with startOffset := p.startOffset + k, column := p.column + k, endOffset := p.startOffset + k + byteLen (rangeText p) }
+
+/-- a hash with a version comment is rewritten from the hash to the end of the comment: only blanks and the comment
+    marker may lie in between -/
+def commentGapOk (content : Text) (q : PkgInfo) : Bool :=
+  match q.extra with
+  | none => true
+  | some (_, cs, _) =>
+    match slice content q.endOffset cs with
+    | none => false
+    | some between => between.all fun c => c == ' ' || c == '\t' || c == '#'
+
+/-- the column in the client's units (UTF-16), when the offsets fit the document -/
 def toClientColumn (content : Text) (q : PkgInfo) : PkgInfo :=
   match Pos.utf16Span content q.column q.startOffset q.endOffset with
   | some (c, _) => { q with column := c }
   | none => q
 
-def locate (content : Text) (p : PkgInfo) : Option PkgInfo := (locateBytes content p).map (toClientColumn content)
+/-- `locate_version_in_token` -/
+def locate (content : Text) (p : PkgInfo) : Option PkgInfo :=
+  match locateBytes content p with
+  | none => none
+  | some q => if commentGapOk content q then some (toClientColumn content q) else none
 
 /-- the packages the code-action handler works with -/
 def locateAll (content : Text) (pkgs : List PkgInfo) : List PkgInfo := pkgs.filterMap (locate content)
